@@ -281,6 +281,12 @@ Proof.
   split; [|vm_compute; reflexivity].
   unfold wf_AnamHermite; cbn. repeat split; auto; try (repeat constructor; vm_compute; reflexivity); try congruence.
 Qed.
+Ltac fa := match goal with |- Forall _ ?l => let l' := eval vm_compute in l in change l with l' end;
+           repeat (apply Forall_cons); try apply Forall_nil.
+Ltac wd := match goal with
+  | |- wf_dbl ?d => let d' := eval vm_compute in d in
+                    match d' with None => exact I | Some _ => change d with d'; split; vm_compute; reflexivity end
+  end.
 Example C08_nonvacuous_Db :
   let o := {| db_nech := 2; db_names := [W "x"; W "z2"; W "zz"; W "sel"];
               db_locs := [Some (0%nat, 0); Some (1%nat, 1); Some (1%nat, 0); Some (10%nat, 0)];
@@ -288,8 +294,12 @@ Example C08_nonvacuous_Db :
   wf_Db o /\ reload "Db" ser_Db deser_Db o = Some o.
 Proof.
   split; [|vm_compute; reflexivity].
-  unfold wf_Db, wf_row; cbn. repeat split; try congruence; try (vm_compute; reflexivity);
-    repeat constructor; try congruence; try (vm_compute; reflexivity); try (vm_compute; congruence).
+  unfold wf_Db; cbn [db_nech db_names db_locs db_rows].
+  split; [discriminate|]. split; [reflexivity|]. split; [reflexivity|].
+  split. { fa; (split; [reflexivity | split; [fa; wd | discriminate]]). }
+  split; [vm_compute; reflexivity|].
+  split. { fa; vm_compute; repeat split; congruence. }
+  split; vm_compute; reflexivity.
 Qed.
 Example C08_nonvacuous_DbGrid :
   let d := {| db_nech := 2; db_names := [W "rank"; W "v"]; db_locs := [None; Some (1%nat, 0)];
@@ -299,21 +309,34 @@ Example C08_nonvacuous_DbGrid :
   wf_DbGrid o /\ reload "DbGrid" ser_DbGrid deser_DbGrid o = Some o.
 Proof.
   split; [|vm_compute; reflexivity].
-  unfold wf_DbGrid, wf_gdim, wf_Db, wf_row; cbn. repeat split; try congruence; try (vm_compute; reflexivity);
-    repeat constructor; try congruence; try (vm_compute; reflexivity); try (vm_compute; congruence).
+  unfold wf_DbGrid; cbn [dg_dims dg_db].
+  split. { fa; unfold wf_gdim; cbn [g_nx g_x0 g_dx g_angle]; (split; [wd|]); (split; [wd|]); (split; [wd|]); split; reflexivity. }
+  split; [reflexivity|].
+  unfold wf_Db; cbn [db_nech db_names db_locs db_rows].
+  split; [discriminate|]. split; [reflexivity|]. split; [reflexivity|].
+  split. { fa; (split; [reflexivity | split; [fa; wd | discriminate]]). }
+  split; [vm_compute; reflexivity|].
+  split. { fa; vm_compute; repeat split; congruence. }
+  split; vm_compute; reflexivity.
 Qed.
 Example C08_nonvacuous_Vario :
-  let t k := (Some (inject_Z k), Some (inject_Z k # 2)%Q, Some (inject_Z k)) in
+  let t k := (Some (inject_Z k), Some (k # 2)%Q, Some (inject_Z k)) in
   let o := {| vr_ndim := 2; vr_nvar := 2; vr_scale := Some 0%Q; vr_asym := false; vr_names := [W "a"; W "b"];
               vr_vars := [[Some 2%Q; Some (1#2)%Q]; [Some (1#2)%Q; Some 3%Q]];
               vr_dirs := [{| vd_regular := true; vd_npas := 2; vd_optcode := 0; vd_tolcode := Some 0%Q; vd_dpas := Some 1%Q;
                              vd_toldist := Some (1#2)%Q; vd_grincr := []; vd_tolang := Some 45%Q;
-                             vd_codir := [Some (3#5)%Q; Some (4#5)%Q]; vd_res := [t 1; t 2; t 3; t 4; t 5; t 6] |}] |} in
+                             vd_codir := [Some (3#5)%Q; Some (4#5)%Q]; vd_res := [t 1; t 3; t 5; t 7; t 9; t 11] |}] |} in
   wf_Vario o /\ reload "Vario" ser_Vario deser_Vario o = Some o.
 Proof.
   split; [|vm_compute; reflexivity].
-  unfold wf_Vario, wf_vdir, wf_triple, defined; cbn. repeat split; try congruence; try (vm_compute; reflexivity);
-    repeat constructor; try congruence; try (vm_compute; reflexivity); try (vm_compute; congruence).
+  unfold wf_Vario; cbn [vr_ndim vr_nvar vr_scale vr_asym vr_names vr_vars vr_dirs].
+  split; [reflexivity|]. split; [wd|]. split; [reflexivity|]. split; [reflexivity|].
+  split. { fa; (split; [reflexivity | fa; wd]). }
+  fa. unfold wf_vdir; cbn [vd_regular vd_npas vd_optcode vd_tolcode vd_dpas vd_toldist vd_grincr vd_tolang vd_codir vd_res].
+  split; [reflexivity|]. split; [reflexivity|]. split; [wd|]. split; [wd|]. split; [wd|]. split; [wd|].
+  split; [vm_compute; reflexivity|]. split; [reflexivity|]. split; [fa; wd|]. split; [discriminate|].
+  split; [reflexivity|].
+  fa; unfold wf_triple, defined; repeat split; try discriminate; vm_compute; reflexivity.
 Qed.
 Example C08_nonvacuous_Model :
   let hr := fun t => negb (t =? 0) in let hp := fun t => t =? 7 in
@@ -325,9 +348,29 @@ Example C08_nonvacuous_Model :
               md_drifts := []; md_means := [Some (3#2)%Q]; md_covar0 := [[Some 1%Q]] |} in
   wf_Model hr hp o /\ reload "Model" ser_Model (deser_Model hr hp) o = Some o.
 Proof.
-  split; [|vm_compute; reflexivity].
-  unfold wf_Model, wf_cova, posd; cbn -[idmat isotropic has_rotation].
-  repeat split; try congruence; try (vm_compute; reflexivity); try (vm_compute; congruence);
-    repeat constructor; try congruence; try (vm_compute; reflexivity); try (vm_compute; congruence);
-    try (intros; vm_compute; reflexivity); try (vm_compute; intros; discriminate).
+  cbv zeta. split; [|vm_compute; reflexivity].
+  unfold wf_Model; cbn [md_ndim md_nvar md_field md_covs md_drifts md_means md_covar0 null].
+  split; [wd|].
+  split.
+  { fa; unfold wf_cova; cbn [cv_type cv_param cv_ranges cv_rotmat cv_sill].
+    - split; [wd|]. split; [intros _; reflexivity|]. cbn [Z.eqb negb]. split; [split; reflexivity|].
+      split; [reflexivity|]. split; [fa; split; [reflexivity | fa; wd]|]. reflexivity.
+    - split; [wd|]. split; [intros _; reflexivity|]. cbn [Z.eqb Pos.eqb negb].
+      split.
+      { split; [reflexivity|]. split; [discriminate|].
+        split; [fa; unfold posd; (split; [vm_compute; reflexivity | split; vm_compute; reflexivity])|].
+        split; [intros H; vm_compute in H; discriminate|].
+        split; [intros H; vm_compute in H; discriminate|].
+        split; [reflexivity|]. split; [fa; wd | discriminate]. }
+      split; [reflexivity|]. split; [fa; split; [reflexivity | fa; wd]|]. reflexivity.
+    - split; [wd|]. split; [intros H; vm_compute in H; discriminate|]. cbn [Z.eqb Pos.eqb negb].
+      split.
+      { split; [reflexivity|]. split; [discriminate|].
+        split; [fa; unfold posd; (split; [vm_compute; reflexivity | split; vm_compute; reflexivity])|].
+        split; [intros _; split; reflexivity|].
+        split; [intros _; reflexivity|].
+        split; [reflexivity|]. split; [fa; wd | discriminate]. }
+      split; [reflexivity|]. split; [fa; split; [reflexivity | fa; wd]|]. reflexivity. }
+  split; [split; [reflexivity | fa; wd]|].
+  split; [reflexivity|]. fa; split; [reflexivity | fa; wd].
 Qed.
